@@ -504,6 +504,15 @@ func c11R10(c *Ctx) {
 				}
 			}
 		}
+		for _, a := range d.Atoms() {
+			for _, side := range []*Org{a.L, a.R, a.B} {
+				if side != nil && side.Mentions(func(x *Org) bool {
+					return x.Kind == "field" && (cn(x.Field) == "foundBody" || cn(x.Field) == "foundTrailer")
+				}) {
+					classified = a.String() + " (the parser's progress flag)"
+				}
+			}
+		}
 		c.Check(classified == "", FuncName(parse), p.InstrPos(cl.(ssa.Instruction)), "xml-length-seen-for-every-field", "the XMLDataLen pick-up does not depend on how the field was classified", "the XMLDataLen pick-up runs only under "+classified+": when the length field is filed by another branch (a header field that ends a repeating group is filed by the group sub-parser) the length is missed, the XML payload is cut at its first SOH and the rest is parsed as fields")
 	}
 	if n == 0 {
